@@ -352,6 +352,7 @@ def run(chk):
             core.append((b, (('AddPoint', 2, 'same'), ('ToggleG', 0, 'same'), ('Relayout', 'g_labels', 'same'))))
             core.append((b, (('AddPoint', 5, 'same'), ('AddPoint', 1, 'same'), ('Relayout', 'scattered_ids', 'same'))))
             core.append((b, (('AddPoint', 4, 'same'), ('AddPoint', 2, 'same'), ('Relayout', 'node_major', 'same'))))
+            core.append((b, (('AddPoint', 5, 'same'), ('AddPoint', 1, 'same'), ('Relayout', 'np_bool_flag', 'same'))))
             core.append((b, (('Relayout', 'spliced_index', 'same'), ('Refine', 1, 'same'), ('Relayout', 'plain', 'same'))))
     known_walks = set(walks) | {(st_b, h) for st_b, h in core}      # core walks are states of the model at depth <= 3
     chosen = core + [w for w in chosen if w[0] != 4][: max(0, nwalk - len(core))]
